@@ -27,7 +27,7 @@ def finals_of(rec_final):
     return [{"sched": bool(f["sched"]), "start": int(f["start"]), "end": int(f["end"])} for f in rec_final]
 
 
-RELATE_CHUNK = 15000      # obligations per TLC run (a quarter of a million in one run neither fit the heap nor the time limit)
+RELATE_CHUNK = 4000       # obligations per TLC run (a quarter of a million in one run neither fit the heap nor the time limit)
 
 
 def decide(obligations, timeout=1800):
